@@ -97,6 +97,8 @@ def assemble(tab, items):
     n = len(items)
     pre = [min(3 if word else 1, int(it.get("pre") or 0)) for it in items]
     args = [it.get("arg") for it in items]
+    # "rep": a run of that many copies of an operand-less instruction (padding that pushes jump operands past 2^16)
+    reps = [max(1, min(140000, int(it.get("rep") or 1))) if not tab.takes(tab.opmap[it["op"]]) else 1 for it in items]
     for _ in range(12):
         # sizes and offsets with the current prefix counts
         starts, ends, ops = [], [], []
@@ -109,7 +111,7 @@ def assemble(tab, items):
             ext_unit = 2 if word else 3
             off += pre[i] * ext_unit
             ops.append(off)
-            off += unit
+            off += unit * reps[i]
             if word:
                 off += 2 * tab.caches.get(it["op"], 0)
             ends.append(off)
@@ -146,7 +148,7 @@ def assemble(tab, items):
             aa = a or 0
             for k in range(pre[i], 0, -1):
                 out += bytes([tab.ext, (aa >> (8 * k)) & 0xFF])
-            out += bytes([code, aa & 0xFF])
+            out += bytes([code, aa & 0xFF]) * reps[i]
             out += b"\x00\x00" * tab.caches.get(it["op"], 0)
         else:
             if takes:
@@ -155,7 +157,7 @@ def assemble(tab, items):
                     out += bytes([tab.ext, hi & 0xFF, hi >> 8])
                 out += bytes([code, a & 0xFF, (a >> 8) & 0xFF])
             else:
-                out += bytes([code])
+                out += bytes([code]) * reps[i]
     return bytes(out), starts, {"args": args, "pre": pre}
 
 
@@ -231,4 +233,19 @@ def asm_cases(version, tab, max_items=14):
             lo, hi = draw(st.sampled_from(mags))
             it["arg"] = draw(st.one_of(st.sampled_from([lo, hi]), st.integers(lo, hi)))
         return it
-    return st.lists(item(), min_size=1, max_size=max_items)
+    base = st.lists(item(), min_size=1, max_size=max_items)
+    if "NOP" not in tab.opmap:
+        return base
+    # one case in ten carries a long run of NOPs, so that jumps across it need operands >= 2^16 (real EXTENDED_ARG
+    # high bits in jump arithmetic); the run is long enough for each encoding of the operand
+    units = 66000 if v < (3, 10) else 66000
+    run = {"op": "NOP", "arg": None, "pre": 0, "to": None, "rep": units if (v < (3, 6) or v >= (3, 10)) else units // 2}
+
+    @st.composite
+    def padded(draw):
+        items = draw(base)
+        if draw(st.integers(0, 9)) == 0:
+            at = draw(st.integers(0, len(items)))
+            items = items[:at] + [dict(run)] + items[at:]
+        return items
+    return padded()
